@@ -226,6 +226,57 @@ K['k11_many_stores'] = PRO + """
   s_endpgm
 """
 
+K['k12_register_signature_survives_neighbour_exit'] = PRO + """
+  s_load_dwordx2 s[8:9], s[0:1], 0x0
+  v_readfirstlane_b32 s14, v0
+  s_lshr_b32 s14, s14, 6
+  s_add_u32 s20, s14, 0x1100
+  s_add_u32 s21, s14, 0x2200
+  s_add_u32 s22, s14, 0x3300
+  s_add_u32 s23, s14, 0x4400
+  s_add_u32 s24, s14, 0x5500
+  s_add_u32 s25, s14, 0x6600
+  s_add_u32 s26, s14, 0x7700
+  s_add_u32 s27, s14, 0x8800
+  v_add_u32 v10, vcc, 0x10, v0
+  v_add_u32 v11, vcc, 0x20, v0
+  v_add_u32 v12, vcc, 0x30, v0
+  v_add_u32 v13, vcc, 0x40, v0
+  v_add_u32 v14, vcc, 0x50, v0
+  v_add_u32 v15, vcc, 0x60, v0
+  v_add_u32 v16, vcc, 0x70, v0
+  v_add_u32 v17, vcc, 0x80, v0
+  s_cmp_eq_u32 s14, 0
+  s_cbranch_scc1 L_end
+  s_waitcnt lgkmcnt(0)
+""" + gaddr('v18','v19','s8','s9') + """
+  flat_load_dword v5, v[18:19]
+  s_waitcnt vmcnt(0)
+  flat_load_dword v5, v[18:19]
+  s_waitcnt vmcnt(0)
+  s_xor_b32 s28, s20, s21
+  s_xor_b32 s28, s28, s22
+  s_xor_b32 s28, s28, s23
+  s_xor_b32 s28, s28, s24
+  s_xor_b32 s28, s28, s25
+  s_xor_b32 s28, s28, s26
+  s_xor_b32 s28, s28, s27
+  v_add_u32 v6, vcc, v10, v11
+  v_add_u32 v6, vcc, v6, v12
+  v_add_u32 v6, vcc, v6, v13
+  v_add_u32 v6, vcc, v6, v14
+  v_add_u32 v6, vcc, v6, v15
+  v_add_u32 v6, vcc, v6, v16
+  v_add_u32 v6, vcc, v6, v17
+  v_add_u32 v6, vcc, s28, v6
+  v_add_u32 v6, vcc, v6, v5
+""" + gaddr('v7','v8','s4','s5') + """
+  flat_store_dword v[7:8], v6
+  s_waitcnt vmcnt(0)
+L_end:
+  s_endpgm
+"""
+
 def assemble(name, src, mcpu='gfx803'):
     p = subprocess.run(['llvm-mc-14', '-arch=amdgcn', '-mcpu=' + mcpu, '-show-encoding'], input=src, capture_output=True, text=True)
     if p.returncode != 0 or 'error' in p.stderr:
